@@ -691,15 +691,22 @@ func (dr *dirRepo) gc() error {
 	if *dr.conf.Storage.GC.EmptyRepo && len(dr.index.Manifests) == 0 && dr.uploads.IsEmpty() {
 		errDir := func() error {
 			errs := []error{}
-			for _, dir := range []string{
-				filepath.Join(dr.path, uploadDir),
-				filepath.Join(dr.path, blobsDir, "sha256"),
-				filepath.Join(dr.path, blobsDir, "sha512"),
+			dirs := []string{filepath.Join(dr.path, uploadDir)}
+			// blobs are stored under whatever algorithm their digest uses (sha256, sha384, sha512, ...)
+			if algoS, err := os.ReadDir(filepath.Join(dr.path, blobsDir)); err == nil {
+				for _, algo := range algoS {
+					if algo.IsDir() {
+						dirs = append(dirs, filepath.Join(dr.path, blobsDir, algo.Name()))
+					}
+				}
+			}
+			dirs = append(dirs,
 				filepath.Join(dr.path, blobsDir),
 				filepath.Join(dr.path, indexFile),
 				filepath.Join(dr.path, layoutFile),
 				filepath.Join(dr.path),
-			} {
+			)
+			for _, dir := range dirs {
 				err := os.Remove(dir)
 				if err != nil && !errors.Is(err, fs.ErrNotExist) {
 					errs = append(errs, err)
